@@ -307,6 +307,8 @@ enum CaseKind {
     Exh(usize, u64, u64),
     Random(usize),
     ParserDup,
+    /// one hub key that takes part in many two-key chords (more than any fixed-size candidate buffer)
+    Wide(usize),
 }
 
 fn n_random(ctx: &Ctx) -> u64 {
@@ -324,6 +326,9 @@ fn layout(ctx: &Ctx) -> Vec<CaseKind> {
         }
     }
     v.push(CaseKind::ParserDup);
+    for w in 0..WIDE_VARIANTS {
+        v.push(CaseKind::Wide(w));
+    }
     v
 }
 
@@ -966,6 +971,82 @@ fn run_scen(sim: &mut Sim, c: &Conf, s: &Scen, nm: &Names) -> (Vec<Obs>, Vec<Str
     (scan.merge_into(o), r, settled)
 }
 
+// ------------------------------------------------------------------------------------------------
+// a hub key that takes part in many chords
+
+const WIDE_VARIANTS: usize = 6;
+const WIDE_PARTNERS: [&str; 20] = ["a", "b", "c", "d", "e", "f", "g", "h", "i", "j", "k", "l", "m", "n", "o", "p", "q", "r", "s", "t"];
+const WIDE_OUT: [&str; 20] = ["1", "2", "3", "4", "5", "6", "7", "8", "9", "0", "f13", "f14", "f15", "f16", "f17", "f18", "f19", "f20", "f21", "f22"];
+
+/// variant: bit 0 = release behaviour, then the number of partner chords: 15 / 17 / 20
+fn wide_shape(w: usize) -> (bool, usize) {
+    (w % 2 == 1, [15, 17, 20][(w / 2) % 3])
+}
+
+fn wide_cfg(w: usize) -> String {
+    let (first_release, n) = wide_shape(w);
+    let mut s = format!("(defcfg process-unmapped-keys yes concurrent-tap-hold yes)\n(defsrc spc {})\n(deflayer base spc {})\n(defchordsv2\n", WIDE_PARTNERS[..n].join(" "), WIDE_PARTNERS[..n].join(" "));
+    for i in 0..n {
+        // written hub-first for even and partner-first for odd chords
+        let keys = if i % 2 == 0 { format!("spc {}", WIDE_PARTNERS[i]) } else { format!("{} spc", WIDE_PARTNERS[i]) };
+        s.push_str(&format!("  ({keys}) {} 40 {} ()\n", WIDE_OUT[i], if first_release { "first-release" } else { "all-released" }));
+    }
+    s.push_str(")\n");
+    s
+}
+
+/// Every chord of the hub key, in both press orders, with gaps 0 / 1 / 20 (< timeout 40): exactly that
+/// chord's output is pressed once and released; neither the hub key nor the partner is output.
+fn wide_case(w: usize, out: &mut CaseOut) {
+    let (_, n) = wide_shape(w);
+    let cfg = wide_cfg(w);
+    let Ok(mut sim) = Sim::new(&cfg) else {
+        out.violate("C09:v2:wide:config-rejected", "a hub key with many two-key chords was rejected".to_string(), json!({"config": cfg, "history": "", "observed": "rejected", "expected": "accepted"}));
+        return;
+    };
+    let hub = osc("spc");
+    let mut reported = false;
+    for i in 0..n {
+        for hub_first in [true, false] {
+            for gap in [0u32, 1, 20] {
+                let partner = osc(WIDE_PARTNERS[i]);
+                let (k1, k2) = if hub_first { (hub, partner) } else { (partner, hub) };
+                let h = vec![Ev::P(k1), Ev::T(gap), Ev::P(k2), Ev::T(30), Ev::R(k1), Ev::T(2), Ev::R(k2)];
+                sim.trace.clear();
+                sim.last_step_start = 0;
+                let base = sim.now;
+                sim.run(&h);
+                settle(&mut sim, 60, 600);
+                let want = code_name(osc(WIDE_OUT[i]));
+                let downs: Vec<String> = sim.trace.iter().filter(|o| matches!(o.kind, OutKind::Down)).map(|o| o.name.clone()).collect();
+                let ok = downs == vec![want.clone()] && sim.os.all_up();
+                out.inc("wide_scenarios");
+                if hub_first {
+                    out.inc("wide_scenarios_hub_pressed_first");
+                }
+                if i >= 16 {
+                    out.inc("wide_scenarios_chord_listed_17th_or_later");
+                }
+                if !ok && !reported {
+                    reported = true;
+                    let raw: Vec<String> = sim.trace.iter().map(|o| format!("{:?}{}@{}", o.kind, o.name, o.at - base)).collect();
+                    out.violate(
+                        "C09:v2:wide:positive:not-fired",
+                        format!("hub key with {n} chords: {} did not give exactly chord #{i} ({})", render_hist(&h), want),
+                        json!({"config": cfg, "history": render_hist(&h), "observed": raw, "expected": format!("press and release of {want} only")}),
+                    );
+                }
+                if !ok {
+                    match Sim::new(&cfg) {
+                        Ok(s2) => sim = s2,
+                        Err(_) => return,
+                    }
+                }
+            }
+        }
+    }
+}
+
 fn parser_dup_case(out: &mut CaseOut) {
     // the same key set written in two different orders must be rejected ("The list must be unique per chord")
     let sets: [&[&str]; 4] = [&["a", "b"], &["a", "b", "c"], &["b", "c", "d"], &["a", "b", "c", "d"]];
@@ -1163,6 +1244,7 @@ impl Check for C09Check {
         match lay.get(idx as usize) {
             Some(CaseKind::Exh(ci, a, b)) => json!({"config": configs()[*ci].text(), "scenarios": format!("exhaustive scenarios #{a}..#{b}")}),
             Some(CaseKind::ParserDup) => json!({"kind": "parser duplicate key sets"}),
+            Some(CaseKind::Wide(w)) => json!({"kind": "hub key with many chords", "variant": w, "config": wide_cfg(*w)}),
             _ => json!({"kind": "random histories", "index": idx - lay.len() as u64}),
         }
     }
@@ -1174,6 +1256,10 @@ impl Check for C09Check {
             None => CaseKind::Random((idx - lay.len() as u64) as usize),
         };
         let (ci, a, b) = match kind {
+            CaseKind::Wide(w) => {
+                wide_case(w, &mut out);
+                return out;
+            }
             CaseKind::ParserDup => {
                 parser_dup_case(&mut out);
                 return out;
@@ -1269,7 +1355,7 @@ impl Check for C09Check {
         out
     }
     fn rule(&self) -> String {
-        "case = one configuration (8 chord tables over 2-5 participating keys: single pair, sub-chord + superset, overlapping pairs with an undefined superset, lone triple, two overlapping triples, pairs + quad, chain of 2/3/4, five-key chord with sub-chords; three defchordsv2-only tables whose chords have different timeouts, an unrelated chord on the same key having a much shorter or longer one; each as a defchords group with single-key chords and as defchordsv2 with all-released / first-release, on the base layer and on a layer where every other chord is disabled; participants written in non-sorted order) and a chunk of its scenario space: for every non-empty subset of the participating keys (subsets of up to 3 keys complete in both tiers; quick: 4-key subsets sampled, 40 000 of 288 000 scenarios each, with a fixed stride; thorough: 4-key subsets complete, 5-key subsets 300 000 of 36 M with a fixed stride; the sampling does not depend on the seed) every permutation of press order x every combination of inter-press gaps from {0,1,T-1,T,T+1} x every permutation of release order x hold {0,1,T+3} x inter-release gap {0,2,9}; for defchordsv2 additionally every chord plus one bystander key (a plain key that is in no chord) in the same scenario space; plus random physically consistent histories mixing chord keys, a non-chord key and an unrelated key (accounting oracle only); plus one parser case (permuted duplicate key sets must be rejected). Non-trivial = scenario ran and was judged; distinct = (configuration, pressed subset, scenario class, sequence of fired units).".into()
+        "case = one configuration (8 chord tables over 2-5 participating keys: single pair, sub-chord + superset, overlapping pairs with an undefined superset, lone triple, two overlapping triples, pairs + quad, chain of 2/3/4, five-key chord with sub-chords; three defchordsv2-only tables whose chords have different timeouts, an unrelated chord on the same key having a much shorter or longer one; each as a defchords group with single-key chords and as defchordsv2 with all-released / first-release, on the base layer and on a layer where every other chord is disabled; participants written in non-sorted order) and a chunk of its scenario space: for every non-empty subset of the participating keys (subsets of up to 3 keys complete in both tiers; quick: 4-key subsets sampled, 40 000 of 288 000 scenarios each, with a fixed stride; thorough: 4-key subsets complete, 5-key subsets 300 000 of 36 M with a fixed stride; the sampling does not depend on the seed) every permutation of press order x every combination of inter-press gaps from {0,1,T-1,T,T+1} x every permutation of release order x hold {0,1,T+3} x inter-release gap {0,2,9}; for defchordsv2 additionally every chord plus one bystander key (a plain key that is in no chord) in the same scenario space; plus random physically consistent histories mixing chord keys, a non-chord key and an unrelated key (accounting oracle only); plus one parser case (permuted duplicate key sets must be rejected); plus six defchordsv2 configurations in which one hub key takes part in 15 / 17 / 20 two-key chords, every chord in both press orders with gaps 0/1/20. Non-trivial = scenario ran and was judged; distinct = (configuration, pressed subset, scenario class, sequence of fired units).".into()
     }
     fn assumptions(&self) -> Vec<String> {
         vec![
@@ -1286,6 +1372,8 @@ impl Check for C09Check {
         let _ = ctx;
         vec![
             ("v1_class_positive", 5_000),
+            ("wide_scenarios", 500),
+            ("wide_scenarios_chord_listed_17th_or_later", 30),
             ("v2_scenarios_with_bystander", 5_000),
             ("v2_class_mixed-positive", 2_000),
             ("v2_class_mixed-positive-after-shorter-chord-ruled-out", 300),
